@@ -17,6 +17,9 @@ NAMES = [("Foo", "foo"), ("FooBar", "foo_bar"), ("Ab", "ab"), ("Quux", "quux")]
 PRELUDE = r'''
 #[derive(Clone, Debug, PartialEq)] pub struct A(pub u8);
 #[derive(Clone, Debug, PartialEq)] pub struct B(pub u8);
+pub fn panic_text(p: Box<dyn std::any::Any + Send>) -> String {
+    if let Some(s) = p.downcast_ref::<&'static str>() { String::from(*s) } else if let Some(s) = p.downcast_ref::<String>() { s.clone() } else { String::from("<non-string payload>") }
+}
 pub fn ad<T>(t: &T) -> usize { t as *const T as usize }
 pub fn report(k: &str, rows: &[String]) { println!("OBS {{\"k\": {:?}, \"rows\": [{}]}}", k, rows.iter().map(|r| format!("{:?}", r)).collect::<Vec<_>>().join(", ")); }
 '''
@@ -105,6 +108,46 @@ def build(c, key):
     def tup(n):
         return "()" if n == 0 else ("f" if n == 1 else "(" + ", ".join(f"f.{j}" for j in range(n)) + ")")
 
+    # ---- extension (Variants.tla, "the TEXTS of the failure paths"): TLC's texts are for the naming Foo/FooBar/Ab/Quux of
+    # an enum called E; for a renamed enum the same formula is rendered from the emitted structure (and the rendering is
+    # checked against TLC's text on every default-named enum, so the two cannot drift apart)
+    default_names = [("Foo", "foo"), ("FooBar", "foo_bar"), ("Ab", "ab"), ("Quux", "quux")]
+    texts = c.get("texts")
+    FORMS_SUFFIX = {"owned": "", "ref": "_ref", "ref_mut": "_mut"}
+
+    def render_unwrap(kind, names, a, x, form):
+        head = "called `E::unwrap_" if kind == "p" else "Attempt to call `E::try_unwrap_"
+        return f"{head}{names[x][1]}{FORMS_SUFFIX[form]}()` on a `E::{names[a][0]}` value"
+
+    def render_into(names, T):
+        grp = next(g for t, _, g in texts["tryInto"] if list(t) == list(T))
+        ty = T[0] if len(T) == 1 else "(" + ", ".join(T) + ")"
+        return "Only " + ", ".join(names[i - 1][0] for i in grp) + " can be converted to " + ty
+
+    def into_text(T):
+        if texts is None:
+            return "?"
+        tlc = next(txt for t, txt, _ in texts["tryInto"] if list(t) == list(T))
+        if render_into(default_names, T) != tlc:
+            raise vlib.ToolError(f"rendering of the TryInto text drifted from Variants.tla: {tlc!r}")
+        return render_into(NAMES, T)
+
+    def text_rows(a, x, form, sn, suffix):
+        if texts is None or "Unwrap" not in derives:
+            return
+        for kind, key in (("p", "unwrapPanic"), ("t", "tryUnwrap")):
+            tlc = texts[key][a][x][form]
+            if render_unwrap(kind, default_names, a, x, form) != tlc:
+                raise vlib.ToolError(f"rendering of the {key} text drifted from Variants.tla: {tlc!r}")
+            want = render_unwrap(kind, NAMES, a, x, form)
+            bind = {"owned": f"let m = vals[{a}].clone();", "ref": f"let m = &vals[{a}];", "ref_mut": f"let mut m = vals[{a}].clone();"}[form]
+            if kind == "p":
+                body.append(f'rows.push(format!("text_unwrap{suffix} {a} {x} {{}}", match std::panic::catch_unwind(|| {{ {bind} let _ = m.unwrap_{sn}{suffix}(); }}) {{ Ok(_) => String::from("ok"), Err(p) => panic_text(p) }}));')
+                exp.append(f"text_unwrap{suffix} {a} {x} {want}")
+            else:
+                body.append(f'rows.push(format!("text_try_unwrap{suffix} {a} {x} {{}}", {{ {bind} let r = match m.try_unwrap_{sn}{suffix}() {{ Ok(_) => String::from("ok"), Err(e) => e.to_string() }}; r }}));')
+                exp.append(f"text_try_unwrap{suffix} {a} {x} {want}")
+
     for a, va in enumerate(vs):
         for x, vx in enumerate(vs):
             if vx["ign"]:
@@ -124,6 +167,8 @@ def build(c, key):
             exp.append(f"unwrap {a} {x} {want_dbg if ok else 'panic'}")
             body.append(f'rows.push(format!("try_unwrap {a} {x} {{}}", match vals[{a}].clone().try_unwrap_{sn}() {{ Ok(f) => format!("{{:?}}", f), Err(e) => String::from(if e.input == vals[{a}] {{ "err_same" }} else {{ "err_changed" }}) }}));')
             exp.append(f"try_unwrap {a} {x} {want_dbg if ok else 'err_same'}")
+            if not ok:
+                text_rows(a, x, "owned", sn, "")
             # reference forms: the very same objects
             if n >= 1:
                 addr_f = ", ".join(f"ad(f{j})" for j in range(n))
@@ -132,6 +177,9 @@ def build(c, key):
                 exp.append(f"unwrap_ref {a} {x} {'same' if ok else 'panic'}")
                 body.append(f'rows.push(format!("try_unwrap_ref {a} {x} {{}}", match vals[{a}].try_unwrap_{sn}_ref() {{ Ok(r) => {{ let want = match &vals[{a}] {{ {pats[x]} => vec![{addr_f}], _ => vec![] }}; String::from(if vec![{addr_r}] == want {{ "same" }} else {{ "other" }}) }}, Err(e) => String::from(if ad(e.input) == ad(&vals[{a}]) {{ "err_same" }} else {{ "err_changed" }}) }}));')
                 exp.append(f"try_unwrap_ref {a} {x} {'same' if ok else 'err_same'}")
+                if not ok:
+                    text_rows(a, x, "ref", sn, "_ref")
+                    text_rows(a, x, "ref_mut", sn, "_mut")
                 # mutable form: a write through it is visible in the value
                 setv = "*r = " + f"{vx['tys'][0]}(99);" if n == 1 else f"*r.0 = {vx['tys'][0]}(99);"
                 first_pat = pats[x]
@@ -151,6 +199,12 @@ def build(c, key):
             tk = "".join(T) or "unit"
             body.append(f'rows.push(format!("try_into {a} {tk} {{}}", match <{tt}>::try_from(vals[{a}].clone()) {{ Ok(f) => format!("{{:?}}", f), Err(e) => String::from(if e.input == vals[{a}] {{ "err_same" }} else {{ "err_changed" }}) }}));')
             exp.append(f"try_into {a} {tk} {want_dbg if ok else 'err_same'}")
+            if not ok:
+                body.append(f'rows.push(format!("text_try_into {a} {tk} {{}}", match <{tt}>::try_from(vals[{a}].clone()) {{ Ok(_) => String::from("ok"), Err(e) => e.to_string() }}));')
+                exp.append(f"text_try_into {a} {tk} {into_text(T)}")
+                if n >= 1 and "ref" in F:
+                    body.append(f'rows.push(format!("text_try_into_ref {a} {tk} {{}}", match <{rt}>::try_from(&vals[{a}]) {{ Ok(_) => String::from("ok"), Err(e) => e.to_string() }}));')
+                    exp.append(f"text_try_into_ref {a} {tk} {into_text(T)}")
             if n >= 1:
                 addr_f = ", ".join(f"ad(f{j})" for j in live) if ok else ""
                 addr_r = "ad(r)" if n == 1 else ", ".join(f"ad(r.{j})" for j in range(n))
@@ -165,7 +219,9 @@ def build(c, key):
                 exp.append(f"try_into_mut {a} {tk} {(T[0] + '(98)') if ok else 'err_same'}")
     # only the listed reference forms exist (no attribute: the owned form)
     FORM_OF = {"unwrap": "owned", "try_unwrap": "owned", "try_into": "owned", "unwrap_ref": "ref", "try_unwrap_ref": "ref",
-               "try_into_ref": "ref", "unwrap_mut": "ref_mut", "try_unwrap_mut": "ref_mut", "try_into_mut": "ref_mut"}
+               "try_into_ref": "ref", "text_unwrap": "owned", "text_try_unwrap": "owned", "text_unwrap_ref": "ref",
+               "text_try_unwrap_ref": "ref", "text_unwrap_mut": "ref_mut", "text_try_unwrap_mut": "ref_mut", "text_try_into": "owned",
+               "text_try_into_ref": "ref", "unwrap_mut": "ref_mut", "try_unwrap_mut": "ref_mut", "try_into_mut": "ref_mut"}
     keep = lambda name: FORM_OF.get(name) is None or FORM_OF[name] in F
     pre = 'rows.push(format!("'
     body = [b for b in body if not b.startswith(pre) or keep(b[len(pre):].split(" ")[0])]
@@ -276,6 +332,19 @@ def run(chk, tier, seed, replay):
             if o is None or o.get("crashed"):
                 chk.deviation(k, "no observation", case={"module": mod}, expected="runs", observed=o, tags={"kind": "crash"})
                 continue
+            # rows starting with text_ are the specification's extension (failure texts): reported, never a C11 verdict
+            ext = chk.notes.setdefault("extension_failure_texts", {"checked": 0, "mismatches": []})
+            got_rows = o["rows"]
+            if len(got_rows) == len(exp):
+                for g, w in zip(got_rows, exp):
+                    if w.startswith("text_"):
+                        ext["checked"] += 1
+                        if g != w:
+                            if len(ext["mismatches"]) < 20:
+                                ext["mismatches"].append({"enum": k, "expected": w, "observed": g})
+                            log(f"EXTENSION-MISMATCH (not a C11 verdict) failure text: {k}: expected {w!r}, observed {g!r}")
+                exp = [w for w in exp if not w.startswith("text_")]
+                o = dict(o, rows=[g for g, w in zip(got_rows, exps[k][0]) if not w.startswith("text_")])
             if o["rows"] != exp:
                 diff = [(g, w) for g, w in zip(o["rows"], exp) if g != w][:4]
                 chk.deviation(k, f"accessor table differs from the contract (got, want): {diff}", case={"module": mod},
